@@ -7,6 +7,9 @@ import GoZero.C16.ProofsRW
 import GoZero.C16.ProofsCache2
 import GoZero.C16.ProofsCache3
 import GoZero.C16.ProofsLru
+import GoZero.C16.ProofsConcObjs
+import GoZero.C16.ProofsConcTake
+import GoZero.C07.Props
 namespace GoZero.C16
 
 /-! ## Queue behaves as a FIFO -/
@@ -359,5 +362,236 @@ theorem pinned_set_subsecond_deletes :
 /-- the fixed code on the same history -/
 example : (CacheG.run C12.step (Cache.new 0 300) [.set 1 10 1, .set 1 11 0, .get 1]).map (fun o => (o.expired, o.result))
     = [([], none), ([], none), ([], some 11)] := by decide
+
+/-! ## Concurrency: the lock-protected structures under every schedule
+
+`Conc.step` (Conc.lean) is the interleaving semantics of "take the object's lock (`Lock`, or `RLock` for the
+read-only methods), run the body statement by statement, unlock, return" for an unbounded number of goroutines.
+The theorems hold for every reachable state, i.e. every schedule. -/
+
+/-- **The lock makes every call atomic (serializability + real-time order), for any lock-protected object whose
+read operations do not write.**  For every returned call `r`: the shared state it found is the committed state
+number `r.pos` (`hist`: the state after each write operation's unlock, in unlock order); run *alone* from that
+state its body ends with exactly the locals (results) `r.res` and the state `r.post`, which is the next committed
+state for a write operation and the same state for a read operation; and `r.pos` lies between the number of
+commits at its invocation and at its return (so the serial order respects the order of non-overlapping calls). -/
+theorem conc_calls_atomic {σ L Op : Type} (o : Conc.Obj σ L Op) (hp : Conc.ReadsPure o) {s0 : σ} {o0 : Op} {l0 : L}
+    {s : Conc.St σ L Op} (h : Conc.Reach o s0 o0 l0 s) (r : Conc.Rec σ L Op) (hr : r ∈ s.rets) :
+    Conc.Solo o r.op (s.hist r.pos) r.res (s.hist (r.pos + r.w o))
+    ∧ r.pre = s.hist r.pos ∧ r.post = s.hist (r.pos + r.w o)
+    ∧ r.invN ≤ r.pos ∧ r.pos + r.w o ≤ r.retN ∧ r.retN ≤ s.n := by
+  obtain ⟨a, b, c, d, e, f⟩ := (Conc.inv_reach o hp h).recs r hr
+  refine ⟨?_, a, b, d, e, f⟩
+  rw [← a, ← b]; exact c
+
+/-- every committed state is produced from the previous one by one recorded write operation run alone, the first
+one from the initial state; and the commit counter only grows (`Conc.n_mono`) -/
+theorem conc_commits_explained {σ L Op : Type} (o : Conc.Obj σ L Op) (hp : Conc.ReadsPure o) {s0 : σ} {o0 : Op} {l0 : L}
+    {s : Conc.St σ L Op} (h : Conc.Reach o s0 o0 l0 s) :
+    s.hist 0 = s0 ∧ ∀ i, i < s.n → ∃ r, r ∈ s.rets ∧ o.isRead r.op = false ∧
+      Conc.Solo o r.op (s.hist i) r.res (s.hist (i + 1)) := by
+  refine ⟨Conc.hist0 o h, fun i hi => ?_⟩
+  obtain ⟨r, hr, hw, hpos⟩ := (Conc.inv_reach o hp h).every i hi
+  have := (conc_calls_atomic o hp h r hr).1
+  have hw1 : r.w o = 1 := by simp [Conc.Rec.w, hw]
+  rw [hw1, hpos] at this
+  exact ⟨r, hr, hw, this⟩
+
+/-- **Mutual exclusion and reader isolation**: a writer inside its body is alone; while a reader is inside its body
+the shared state is the committed state it found when it got the lock — a `Range` or `Get` concurrent with a `Del`
+never sees a half-done migration. -/
+theorem conc_reader_isolation {σ L Op : Type} (o : Conc.Obj σ L Op) (hp : Conc.ReadsPure o) {s0 : σ} {o0 : Op} {l0 : L}
+    {s : Conc.St σ L Op} (h : Conc.Reach o s0 o0 l0 s) (t : Conc.Tid) (ht : s.pc t = .inside) :
+    (o.isRead (s.op t) = true → s.sh = s.snap t ∧ s.writer = none)
+    ∧ (o.isRead (s.op t) = false → ∀ u, s.pc u = .inside → u = t) := by
+  have hi := Conc.inv_reach o hp h
+  constructor
+  · intro hr
+    have hm := hi.insideR t ht hr
+    have hw : s.writer = none := by
+      cases hw : s.writer with
+      | none => rfl
+      | some u => have := (hi.lockW u hw).2.2; simp_all
+    exact ⟨by rw [(hi.inT t ht).2.1]; exact hi.commit hw, hw⟩
+  · intro hr u hu
+    have hw := hi.insideW t ht hr
+    have hrd := (hi.lockW t hw).2.2
+    cases hru : o.isRead (s.op u) with
+    | true => have := hi.insideR u hu hru; rw [hrd] at this; cases this
+    | false => have := hi.insideW u hu hru; rw [hw] at this; cases this; rfl
+
+/-! ### SafeMap under concurrency (RWMutex; `Del` with its migration spread over many steps, `Range` element by element) -/
+
+/-- the map operation a SafeMap write stands for -/
+def CMap.toMapOp : CMap.Op → Option MapOp
+  | .set k v => some (.set k v)
+  | .del k => some (.del k)
+  | _ => none
+
+/-- **every committed state of a concurrently used SafeMap is a state of the sequential model**: the result of
+running some sequence of Set / Del (the write operations in unlock order) from the empty map — so every sequential
+theorem (`safemap_refines_map`, `safemap_range_size`, `safemap_generations_disjoint`) applies to it. -/
+theorem safemap_conc_states_sequential (maxDel thr : Nat) {o0 : CMap.Op} {l0 : Loc} {s : Conc.St SafeMap Loc CMap.Op}
+    (h : Conc.Reach (CMap.obj maxDel thr) SafeMap.init o0 l0 s) (i : Nat) (hi : i ≤ s.n) :
+    ∃ ops : List MapOp, s.hist i = SafeMap.init.run maxDel thr ops := by
+  induction i with
+  | zero => exact ⟨[], by rw [(conc_commits_explained _ (CMap.readsPure maxDel thr) h).1]; rfl⟩
+  | succ i ih =>
+    obtain ⟨ops, hops⟩ := ih (by omega)
+    obtain ⟨r, _, hw, hsolo⟩ := (conc_commits_explained _ (CMap.readsPure maxDel thr) h).2 i (by omega)
+    have hseq := (CMap.solo_is_seq maxDel thr r.op _ _ _ hsolo).1
+    cases hop : r.op with
+    | get k => rw [hop] at hw; simp [CMap.obj, CMap.isRead] at hw
+    | size => rw [hop] at hw; simp [CMap.obj, CMap.isRead] at hw
+    | range => rw [hop] at hw; simp [CMap.obj, CMap.isRead] at hw
+    | set k v =>
+      refine ⟨ops ++ [.set k v], ?_⟩
+      rw [hseq, hop, hops]; simp [CMap.seqPost, SafeMap.run, SafeMap.step]
+    | del k =>
+      refine ⟨ops ++ [.del k], ?_⟩
+      rw [hseq, hop, hops]; simp [CMap.seqPost, SafeMap.run, SafeMap.step]
+
+/-- **SafeMap behaves as a map under every schedule.**  Every returned call of a concurrently used SafeMap — with
+`Del`'s generation migration and `Range`'s iteration interleaved statement by statement with the other goroutines —
+took effect atomically on a state `m` of the sequential model reached by the writes serialized before it:
+`Get k` returned `mapGetAfter ops k`, `Size` the number of keys, `Range` handed its callback every pair of the map's
+graph exactly once (no pair of a half-migrated generation twice, none missing), and a write left the sequential
+model's next state. -/
+theorem safemap_conc_behaves_as_map (maxDel thr : Nat) {o0 : CMap.Op} {l0 : Loc} {s : Conc.St SafeMap Loc CMap.Op}
+    (h : Conc.Reach (CMap.obj maxDel thr) SafeMap.init o0 l0 s) (r : Conc.Rec SafeMap Loc CMap.Op) (hr : r ∈ s.rets) :
+    ∃ ops : List MapOp, r.pre = SafeMap.init.run maxDel thr ops
+      ∧ r.post = CMap.seqPost maxDel thr r.pre r.op
+      ∧ (match r.op with
+         | .get k => r.res.res = Spec.mapGetAfter ops k
+         | .size => r.res.res = some r.pre.range.length
+         | .range => (akeys r.res.acc).Nodup ∧ ∀ k v, (k, v) ∈ r.res.acc ↔ Spec.mapGetAfter ops k = some v
+         | _ => True) := by
+  obtain ⟨hsolo, hpre, hpost, _, hret, hle⟩ := conc_calls_atomic _ (CMap.readsPure maxDel thr) h r hr
+  obtain ⟨ops, hops⟩ := safemap_conc_states_sequential maxDel thr h r.pos (by omega)
+  have hseq := CMap.solo_is_seq maxDel thr r.op _ _ _ hsolo
+  refine ⟨ops, by rw [hpre, hops], by rw [hpost, hpre]; exact hseq.1, ?_⟩
+  have hres := hseq.2
+  unfold CMap.resultOK at hres
+  cases hop : r.op with
+  | get k =>
+    rw [hop] at hres
+    simp only at hres ⊢
+    rw [hres, hops]; exact safemap_refines_map maxDel thr ops k
+  | size =>
+    rw [hop] at hres
+    simp only at hres ⊢
+    rw [hres, hpre]; simp [SafeMap.size, SafeMap.range]
+  | range =>
+    rw [hop] at hres
+    simp only at hres ⊢
+    rw [hres, hops]
+    have := safemap_range_size maxDel thr ops
+    exact ⟨this.1, this.2.1⟩
+  | set k v => trivial
+  | del k => trivial
+
+/-- Queue under concurrency (Mutex): every returned Put / Take / Empty took effect atomically, with the result and
+successor state of the sequential model `Queue.step` (which `queue_refines_fifo` relates to the FIFO) on the committed
+state it found. -/
+theorem queue_conc_calls_sequential {o0 : CQueue.Op} {l0 : Loc} {q0 : Queue} {s : Conc.St Queue Loc CQueue.Op}
+    (h : Conc.Reach CQueue.obj q0 o0 l0 s) (r : Conc.Rec Queue Loc CQueue.Op) (hr : r ∈ s.rets) :
+    (r.post, CQueue.visible r.op r.res) = CQueue.seqStep r.pre r.op
+    ∧ r.pre = s.hist r.pos ∧ r.post = s.hist (r.pos + 1) ∧ r.invN ≤ r.pos ∧ r.pos + 1 ≤ r.retN := by
+  obtain ⟨hsolo, hpre, hpost, hinv, hret, _⟩ := conc_calls_atomic _ CQueue.readsPure h r hr
+  have hw : r.w CQueue.obj = 1 := by simp [Conc.Rec.w, CQueue.obj]
+  rw [hw] at hpost hret hsolo
+  refine ⟨?_, hpre, hpost, hinv, hret⟩
+  rw [hpre, hpost]
+  exact CQueue.solo_is_seq r.op _ _ _ hsolo
+
+/-- Ring under concurrency (RWMutex): an `Add` leaves the sequential model's next state, a `Take` (copying element by
+element under the read lock) returns exactly `Ring.take` of the committed state it found — by
+`ring_keeps_last_n_in_order` the last n values added before it in the serial order. -/
+theorem ring_conc_calls_sequential {o0 : CRing.Op} {l0 : Loc} {r0 : Ring} {s : Conc.St Ring Loc CRing.Op}
+    (h : Conc.Reach CRing.obj r0 o0 l0 s) (r : Conc.Rec Ring Loc CRing.Op) (hr : r ∈ s.rets) :
+    r.pre = s.hist r.pos ∧ CRing.resultOK r.pre r.op r.res r.post := by
+  obtain ⟨hsolo, hpre, hpost, _, _, _⟩ := conc_calls_atomic _ CRing.readsPure h r hr
+  refine ⟨hpre, ?_⟩
+  have := CRing.solo_is_seq r.op _ _ _ hsolo
+  rw [← hpre, ← hpost] at this
+  exact this
+
+/-- non-vacuity: SafeMap with thresholds 1/2; goroutine 1 runs `Del 7` (which migrates) statement by statement while
+goroutine 2 waits for the read lock, then runs `Range`; goroutine 3's `Get` joins the reader.  The schedule is
+accepted by `Conc.step` and the three calls return. -/
+example :
+    (match Conc.run (CMap.obj 1 2) (Conc.init SafeMap.init (.get 0) { pc := 0 })
+      [(0, .set 7 70), (0, .size), (0, .size), (0, .size), (0, .size), (0, .size),          -- Set 7 70 by goroutine 0
+       (0, .set 8 80), (0, .size), (0, .size), (0, .size), (0, .size), (0, .size),          -- Set 8 80
+       (1, .del 7), (2, .range),                                                              -- 1 wants Lock, 2 wants RLock
+       (1, .size), (1, .size), (1, .size), (1, .size), (1, .size), (1, .size), (1, .size),  -- Del 7: delete, count, migrate …
+       (1, .size), (1, .size), (1, .size), (1, .size), (1, .size),                          -- … unlock (commit 3)
+       (2, .size), (3, .get 8), (3, .size), (2, .size), (2, .size), (3, .size), (3, .size), -- Range and Get share the read lock
+       (2, .size), (2, .size), (2, .size)] with
+     | some s => s.n == 3 && (s.rets.map fun r => (r.tid, r.pos, r.res.acc, r.res.res))
+         == [(2, 3, [(8, 80)], none), (3, 3, [], some 80), (1, 2, [], none), (0, 1, [], none), (0, 0, [], none)]
+     | none => false) = true := by
+  decide
+
+/-- … and while `Del` holds the write lock in the middle of its migration, the reader cannot move -/
+example :
+    (Conc.run (CMap.obj 1 2) (Conc.init SafeMap.init (.get 0) { pc := 0 })
+      [(0, .set 7 70), (0, .size), (0, .size), (0, .size), (0, .size), (0, .size),
+       (1, .del 7), (2, .range), (1, .size), (1, .size), (1, .size), (1, .size), (2, .size)]).isNone = true := by
+  decide
+
+/-! ### Cache.Take under concurrency: the loader runs at most once per miss
+
+`CT.step` (ConcTake.lean): any number of goroutines calling `Take`, `Set`, `Del` on any keys, entries expiring or
+being evicted at any moment, loaders returning values or errors after any delay.  The singleflight barrier is
+modelled by its specification, which C07 proves of core/syncx/singleflight.go for every schedule: -/
+
+/-- (C07, re-exported) at most one goroutine per key is between registering and deleting a flight of the real
+`SingleFlight` — the user function runs strictly inside — and every returned call got the value of the single
+execution of the flight it joined. -/
+theorem take_barrier_is_singleflight {s : C07.SF.St} (h : C07.SF.Reach s) :
+    (∀ t u, (s.pc t).inFlight = true → (s.pc u).inFlight = true → s.key t = s.key u → t = u)
+    ∧ (∀ r, r ∈ s.rets → s.ekey r.exec = r.key ∧ s.fnres r.exec = some r.val) :=
+  ⟨fun t u ht hu hk => C07.sf_exclusive h t u ht hu hk, fun r hr => ⟨(C07.sf_no_stale h r hr).2.1, (C07.sf_no_stale h r hr).1⟩⟩
+
+/-- **One loader at a time per key**: two goroutines inside the function handed to the barrier (from the re-check
+`doGet` to the end of the flight, the loader call in between) for the same key are the same goroutine. -/
+theorem take_loader_exclusive {s : CT.St} (h : CT.Reach s) (t u : CT.Tid)
+    (ht : (s.pc t).lead = true) (hu : (s.pc u).lead = true) (hk : s.key t = s.key u) : t = u := by
+  have hi := CT.inv_reach h
+  obtain ⟨a1, a2⟩ := hi.lead t ht
+  obtain ⟨b1, b2⟩ := hi.lead u hu
+  rw [hk, b1] at a1
+  have e := Option.some.inj a1
+  rw [← a2, ← b2, e]
+
+/-- **The loader is called at most once per miss** (any schedule, any number of concurrent `Take`s of the key): the
+number of loader calls for a key never exceeds one, plus the number of times a present entry of the key was removed
+(`Del`, expiry, eviction), plus the number of loader calls that failed.  In particular, while the entry is not
+removed and no load fails, all concurrent and later `Take`s of the key together call the loader once. -/
+theorem take_loads_once_per_miss {s : CT.St} (h : CT.Reach s) (k : CT.Key) :
+    s.loads k ≤ s.gone k + s.fails k + 1 :=
+  ((CT.inv_reach h).cnt k).1
+
+/-- **`Take` calls the loader only on a miss**: a `Take` calls the loader at most once, and only after it has looked
+the key up *inside the barrier* and missed; while the loader runs, that holds of the calling goroutine. -/
+theorem take_conc_loads_only_on_miss {s : CT.St} (h : CT.Reach s) :
+    (∀ r, r ∈ s.rets → r.calls ≤ 1 ∧ (r.calls = 1 → r.sawMiss = true))
+    ∧ (∀ t, s.pc t = .f2 → s.calls t = 1 ∧ s.sawMiss t = true) := by
+  have hi := CT.inv_reach h
+  refine ⟨hi.rets, fun t ht => ?_⟩
+  have := hi.calls t
+  unfold CT.callsOK at this
+  rw [ht] at this
+  exact this
+
+/-- non-vacuity: goroutines 1 and 2 `Take` key 5 concurrently (both miss at `t0`), 1 leads, 2 joins the flight;
+goroutine 3 arrives after the flight and hits.  One loader call, all three get 50. -/
+example :
+    (match CT.run CT.init [(1, .take 5), (2, .take 5), (1, .tau), (2, .tau), (1, .tau), (2, .tau), (1, .tau), (1, .tau),
+        (1, .ret (some 50)), (1, .tau), (1, .tau), (2, .tau), (1, .tau), (2, .tau), (3, .take 5), (3, .tau), (3, .tau)] with
+     | some s => s.loads 5 == 1 && (s.rets.map fun r => (r.tid, r.calls, r.res)) == [(3, 0, some 50), (2, 0, some 50), (1, 1, some 50)]
+     | none => false) = true := by
+  decide
 
 end GoZero.C16
